@@ -13,6 +13,7 @@ import gen_host
 SEEDS = [
     b'', b'\x00', b'\xff', b'%', b'%%', b'%4', b'%zz', b'a%', b'[', b']', b'[]', b'[:', b'[::', b'[::1', b'::1]', b'[' + b':' * 45 + b']',
     b'[' + b'1:' * 22 + b']', b'[1:2:3:4:5:6:7:8:9]', b'[1.2.3.4]', b'[::1.2.3.4.5]', b'[::' + b'1' * 40 + b']', b'http://[' + b'a' * 46 + b']/',
+    b'http://ex%4', b'https://a%f', b'ws://h%A', b'http://%4', b'http://h%', b'ftp://ex%4', b'http://ex%41', b'http://ex%4/', b'//ex%4', b'http://u@ex%4',
     b'http://', b'http:///', b'http://@', b'http://:@', b'http://:80', b'http://a:b@', b'http://h:', b'http://h:99999999999999999999',
     b'\xc3', b'\xe2\x82', b'\xf0\x9f\x98', b'\xc0\xaf', b'\xe0\x80\xaf', b'\xed\xa0\x80', b'\xed\xbf\xbf', b'\xf4\x90\x80\x80', b'\xf8\x88\x80\x80\x80',
     b'\x80', b'\xbf', b'\xfe\xff', b'\xef\xbb\xbfhttp://h/', b'http://\xc3/', b'http://a\xe2\x82/', b'http://\xed\xa0\x80/', b'http://%c3/', b'http://%ff/',
